@@ -118,7 +118,7 @@ pub fn run(ctx: &Ctx) -> Report {
     // (b) valid documents, all their truncations, single-byte mutations
     if ctx.want("mutations") {
         let mut r = ctx.rng("c16-mut");
-        let n = ctx.count(3_000, 60_000);
+        let n = ctx.count(15_000, 120_000);
         let g = Gen { max_depth: 5, max_items: 4, max_str: 12 };
         for _ in 0..n {
             let mut doc = vec![];
